@@ -25,6 +25,7 @@ RULE = ("random sequences x layouts (header or not and where, line length 1..80,
         "from a panel of ASCII and non-ASCII characters; every variant is written to the same path and parsed by the "
         "real parser; distinct = distinct file content; non-trivial = content whose model outcome is specified "
         "(a residue string or an error)")
+RULE += ("; added after the mutation rounds: file names with blanks / non-ASCII letters, relative and pathlib paths; stray non-UTF-8 bytes inside sequence lines; a re-used parser object and the front-end constructor on every fifth variant (also rejected ones); a second object built from the same file after the first was modified; the first cases of every shard are judged again at its end")
 EXHAUSTIVE = {"quick": False, "thorough": False}
 ASSUMPTIONS = [
     "line breaks are LF, CRLF or CR; a header is a line whose first character is '>'",
